@@ -19,7 +19,12 @@ def select(case, X, y, qcols, lcols):
     from AutoCarver.selectors import ClassificationSelector, RegressionSelector
 
     cls = ClassificationSelector if case["selector"] == "classification" else RegressionSelector
-    sel = cls(case["n_best"], qualitative_features=list(lcols) or None, quantitative_features=list(qcols) or None, thresh_corr=case["thresh_corr"])
+    kw = {}
+    if case.get("outliers"):  # outlier measures before the association measure, with thresholds that bite
+        from AutoCarver.selectors.measures import iqr_measure, kruskal_measure, zscore_measure
+
+        kw = {"quantitative_measures": [iqr_measure if case["outliers"] == "iqr" else zscore_measure, kruskal_measure], "thresh_iqr": 0.05, "thresh_zscore": 0.05}
+    sel = cls(case["n_best"], qualitative_features=list(lcols) or None, quantitative_features=list(qcols) or None, thresh_corr=case["thresh_corr"], **kw)
     return S.quiet(sel.select, X, y)
 
 
@@ -226,6 +231,12 @@ def run(tier, seed, rep):
     if tier == "quick":
         base = [c for c in base if (c["n_best"], c["thresh_corr"]) in ((1, 1), (2, 0.9), (3, 0.5), (2, 1))]
         base = base[:: 3]
+    # outlier measures (Tukey fences / z-score) in front of the association measure
+    for target in ("binary", "multiclass"):
+        for outl in ("iqr", "zscore"):
+            for sub in (["fence", "noisy1", "indep2"], ["fence2", "noisy2", "indep1"], ["fence", "fence2", "copy"], ["noisy1", "noisy2", "fence"]):
+                for n_best in (1, 2, 3):
+                    base.append({"selector": "classification", "target": target, "qcols": list(sub), "lcols": [], "n_best": n_best, "thresh_corr": 1, "outliers": outl})
     # colsample < 1: frames with exactly one perfect column among 3 (4 in thorough) candidates of one type, every shuffle outcome
     import itertools
 
